@@ -125,7 +125,7 @@ Theorem C19_qasm_rule_u3 : forall (K : Type) (O0 : Ops K), Laws O0 -> forall a a
 Proof. exact @qasm_rule_u3. Qed.
 Print Assumptions C19_qasm_rule_u3.
 
-Theorem C19_qasm_u3_theta_period : forall (K : Type) (O : Ops K), Laws O -> forall a ac bh bhc ch chc : K, kmul O a ac = k1 O -> kmul O bh bhc = k1 O -> kmul O ch chc = k1 O -> forall b c : K, q_u3 O (kopp O a) (kopp O ac) b c = mscale O (kopp O (k1 O)) (q_u3 O a ac b c).
+Theorem C19_qasm_u3_theta_period : forall (K : Type) (O : Ops K), Laws O -> forall a ac b c : K, q_u3 O (kopp O a) (kopp O ac) b c = mscale O (kopp O (k1 O)) (q_u3 O a ac b c).
 Proof. exact @qasm_u3_theta_period. Qed.
 Print Assumptions C19_qasm_u3_theta_period.
 
